@@ -840,7 +840,7 @@ func body(w *hx.W) {
 		}
 		return p
 	}
-	reps := w.Pick(6, 60)
+	reps := w.Pick(6, 40)
 	for rep := 0; rep < reps; rep++ {
 		for _, cn := range capsNames {
 			// systematic: state x size x form
